@@ -82,9 +82,9 @@ def run(tier):
     # with session_table_clear when a Reset arrives; afterwards it must equal a freshly created table - no slot valid (whatever
     # holes expiry and removal left), count 0, all-complete true
     rep.rule('R09.7', 'the session table after session_table_clear equals a freshly created one (every slot invalid - not only the first `count` -, count 0, all-complete true)', floor=6)
-    from .c16 import decide as table_decide
+    from .c16 import clear_and_create, Ctx as _TableCtx
     from .c07 import RuleView
-    table_decide(RuleView(rep, {'R16.clear': 'R09.7', 'R16.create': 'R09.7'}), prog)
+    clear_and_create(RuleView(rep, {'R16.clear': 'R09.7', 'R16.create': 'R09.7'}), _TableCtx(prog))
     info = recovery(rep, prog, 'R09')
     rep.analysed.update(info)
     return finish(rep, 'proof',
